@@ -14,6 +14,7 @@ func init() { register("C16", checkC16) }
 
 func checkC16(r *Run) {
 	P := r.P
+	moreC16(r)
 	r.NotDecided("equality of a wrapped store with a map model over operation sequences (runtime); decided: every parent access goes through the prefix, every cost-table row is charged at its place, every operation is traced")
 	r.NotDecided("arithmetic overflow of ReadCostPerByte*len(value) (uint64 multiplication is not overflow-checked in the code: observation)")
 
